@@ -50,6 +50,8 @@ def _dec_kind(node):
         return 'DInt'
     src = ast.unparse(node)
     return {'lambda x: utf_8_decode(x)[0]': 'DUtf8',
+            # the repaired legacy entry: parse_ticket hands a str, an earlier decoder in the chain may hand bytes
+            'lambda x: x if isinstance(x, str) else utf_8_decode(x)[0]': 'DUtf8Text',
             'lambda x: utf_8_decode(b64decode(x))[0]': 'DB64Utf8',
             'lambda x: b64decode(x)': 'DB64'}.get(src)
 
